@@ -1,2 +1,82 @@
-(** placeholder, replaced below *)
-From Attrs Require Import Core.Attr Core.Init Core.InitProofs.
+(** * C01 — Generated __init__ stores converter(argument | default | fresh factory value).
+
+    Property theorems only.  The model is [Core/Init.v] (script generator mirroring
+    [_make_init_script]/[_attrs_to_init_script]/[_determine_setters], interpreter over a
+    two-layer slots/dict instance, Python calling convention). *)
+From Coq Require Import List Bool String Ascii.
+Import ListNotations.
+From Attrs Require Import Core.Attr Core.Init Core.InitProofs Core.InitProps.
+Open Scope string_scope.
+
+(** For every well-formed class of any number of fields and every call that binds:
+    construction finishes; each participating field reads back exactly
+    [spec_value] = converter(passed value | declared default | fresh factory result),
+    the converter applied once with instance/field if requested; non-participating fields
+    stay unset; nothing else is written except the hash-cache slot ([None]) and, for
+    exception classes, [args].  [spec_value] mentions neither slots, frozen, cache_hash,
+    the exception flag nor any hook: the clause "holds identically for dict and slotted,
+    mutable and frozen, hash-caching, exception and inherited classes". *)
+Theorem init_stores : forall k sc von pos kw en,
+  wf k -> make_init_script k = GenOk sc -> bind_call sc pos kw = Bound en ->
+  exists i,
+    run_init k no_fault von pos kw = InitDone i (expected_trace k von en) /\
+    (forall a, In a (k_attrs k) -> participates a = true -> read k i (a_name a) = Ok (spec_value a en)) /\
+    (forall a, In a (k_attrs k) -> participates a = false -> read k i (a_name a) = Raise EAttributeError) /\
+    (forall m, ~ In m (map a_name (k_attrs k)) -> m <> HASH_CACHE -> read k i m = Raise EAttributeError) /\
+    (k_cache_hash k = true -> read k i HASH_CACHE = Ok VNone) /\
+    i_args i = expected_args k en.
+Proof. exact run_init_nofault. Qed.
+Print Assumptions init_stores.
+
+(** Positional parameters are the aliases of the init, non-keyword-only fields in field
+    order; keyword-only ones follow in field order; init=False fields are not parameters;
+    a parameter is optional iff its field has a default ([pdef_optional]). *)
+Theorem init_signature : forall k sc,
+  make_init_script k = GenOk sc ->
+  pos_params sc = map (fun a => (alias_of a, pdef a))
+                      (filter (fun a => a_init a && negb (a_kw_only a)) (k_attrs k)) /\
+  kw_params sc = map (fun a => (alias_of a, pdef a))
+                     (filter (fun a => a_init a && a_kw_only a) (k_attrs k)).
+Proof. exact init_signature_l. Qed.
+Print Assumptions init_signature.
+
+Theorem parameter_optional_iff_default : forall a, (pdef a <> PMandatory) <-> has_default a = true.
+Proof. exact pdef_optional. Qed.
+Print Assumptions parameter_optional_iff_default.
+
+(** The default alias is the name with its leading underscores stripped. *)
+Theorem alias_default : forall s,
+  exists n, s = underscores n ++ default_init_alias_for s /\
+            (forall r, default_init_alias_for s <> String "_"%char r).
+Proof. exact lstrip_spec_l. Qed.
+Print Assumptions alias_default.
+
+(** Annotations: the field's type without a converter, the converter's first-parameter
+    type with one, nothing otherwise. *)
+Theorem init_annotations : forall k sc,
+  make_init_script k = GenOk sc ->
+  annotations sc = flat_map field_annotation (filter participates (k_attrs k)).
+Proof. exact init_annotations_l. Qed.
+Print Assumptions init_annotations.
+
+(** A call that does not bind (missing, unknown, duplicate, surplus argument) is a
+    TypeError and runs no callback, under any fault oracle. *)
+Theorem init_typeerror : forall k sc f von pos kw,
+  make_init_script k = GenOk sc -> bind_call sc pos kw = BindTypeError ->
+  run_init k f von pos kw = InitTypeError.
+Proof. exact init_typeerror_l. Qed.
+Print Assumptions init_typeerror.
+
+(** Two classes with the same field tuple, whatever their modes, bind the same calls and
+    leave the same value in every field. *)
+Theorem init_mode_independent : forall k1 k2 sc1 sc2 von1 von2 pos kw en,
+  wf k1 -> wf k2 -> k_attrs k1 = k_attrs k2 ->
+  make_init_script k1 = GenOk sc1 -> make_init_script k2 = GenOk sc2 ->
+  bind_call sc1 pos kw = Bound en ->
+  bind_call sc2 pos kw = Bound en /\
+  exists i1 i2 t1 t2,
+    run_init k1 no_fault von1 pos kw = InitDone i1 t1 /\
+    run_init k2 no_fault von2 pos kw = InitDone i2 t2 /\
+    forall a, In a (k_attrs k1) -> read k1 i1 (a_name a) = read k2 i2 (a_name a).
+Proof. exact init_mode_independent_l. Qed.
+Print Assumptions init_mode_independent.
